@@ -23,6 +23,9 @@ def fresh(prefix):
     return "%s%d" % (prefix, _ctr[0])
 
 
+# libast functions that read at most `len` bytes (and stop at a terminator) from a pointer: (pointer arg, length arg)
+COUNTED_READERS = {"spif_str_new_from_buff": (0, 1), "spif_str_init_from_buff": (1, 2), "spif_ustr_new_from_buff": (0, 1),
+                   "spif_ustr_init_from_buff": (1, 2)}
 NULLV = ("n",)
 UNK = ("u",)
 
@@ -318,6 +321,11 @@ class Cap(object):
             return UNK
         if loc[0] == "var":
             v = st.env.get(loc[1])
+            if v is not None and v[0] == "uninit":
+                self.fail(st, "uninit", loc[2], "local `%s` is read on a path on which it was never assigned" % v[1])
+                v = self.fresh_for(st, loc[2], "u_%s_" % v[1])
+                st.env[loc[1]] = v
+                return v
             if v is None:
                 n = loc[2]
                 if n.get("rk") == "global":
@@ -1345,6 +1353,17 @@ class Cap(object):
                         r.nul = A[0][2] + Lin.sym(ln)
                         r.slen = Lin.sym(ln) if (A[0][2].is_const() and A[0][2].c == 0) else None
             return [(st, I(Lin.sym(fresh("b"))))]
+        if cn in COUNTED_READERS and len(A) > max(COUNTED_READERS[cn]):
+            pi_, li_ = COUNTED_READERS[cn]
+            if A[li_][0] == "i":
+                self.oblige(st, "count", n, A[li_][1], "negative length %s passed to %s" % (A[li_][1], cn))
+            if A[pi_][0] == "p":
+                r_ = st.regions.get(A[pi_][1])
+                if r_ is not None:
+                    self.oblige(st, "lower", n, A[pi_][2], "%s is given a pointer before the start of %s" % (cn, r_.name or r_.kind))
+                    bound = r_.slen if r_.slen is not None else (r_.nul if r_.nul is not None else None)
+                    if bound is not None:
+                        self.oblige(st, "cursor", n, bound - A[pi_][2], "%s is given a pointer past the terminator of %s" % (cn, r_.name or r_.kind))
         # libast function defined in the program: inline (bounded depth)
         fn = self.prog.fn(cn) if cn else None
         if fn is not None and self.inline and self.depth < self.MAX_INLINE and fn.cfg is not None and not self.no_inline(fn):
